@@ -1540,6 +1540,15 @@ class TLSConnection(TLSRecordLayer):
                             "Server selected signature algorithm we didn't "
                             "advertise"):
                         yield result
+                # and one usable with the certificate it presented
+                cert_sig_algs = self._sigHashesToList(
+                    settings, certList=serverCertChain, version=(3, 4))
+                if signature_scheme not in cert_sig_algs:
+                    for result in self._sendError(
+                            AlertDescription.illegal_parameter,
+                            "Server selected signature algorithm invalid for "
+                            "the certificate it presented"):
+                        yield result
 
             if signature_scheme in (SignatureScheme.ed25519,
                                     SignatureScheme.ed448,
